@@ -177,8 +177,12 @@ static void run_randi(Json& js, vh::Rng& rng, long budget) {
 static void run_awgn(Json& js, vh::Rng& rng, long budget, int maxlen) {
     for (long t = 0; t < budget; ++t) {
         const int n = (int)std::pow(10.0, 4 + rng.unif() * std::log10(maxlen / 1e4));
-        const double snr = -10 + 90 * rng.unif();
-        const double amp = std::pow(10.0, -3 + 6 * rng.unif());   // powers over 120 dB
+        double snr = -10 + 90 * rng.unif();
+        double amp = std::pow(10.0, -3 + 6 * rng.unif());   // powers over 120 dB
+        if (t % 4 == 3) {   // the quiet corner: a weak signal and a high SNR (noise far below any absolute floor one might invent)
+            snr = 50 + 30 * rng.unif();
+            amp = std::pow(10.0, -4 + 2 * rng.unif());
+        }
         const bool cplx = rng.coin();
         const int kind = (int)rng.range(0, 2);   // tone / broadband / unbalanced I-Q
         dsplib::rng((int)rng.range(0, 100000));
